@@ -946,6 +946,25 @@ func buildIntrinsics() map[string]*Native {
 	reg("time.runtimeNano", func(ip *Interp, a []Value) Value { return i64(0) })
 	reg("time.now", func(ip *Interp, a []Value) Value { return ip.clockNow() })
 	reg("math/rand.Seed", func(ip *Interp, a []Value) Value { return nil })
+	reg("math/rand.Intn", func(ip *Interp, a []Value) Value {
+		n := ip.term(a[0])
+		if n.IsConst() && n.Int() <= 0 {
+			panic(&targetPanic{V: Iface{T: types.Typ[types.String], V: MkStr("invalid argument to Intn")}, Site: ip.curFnName(), Msg: "invalid argument to Intn"})
+		}
+		w := ip.W
+		v := w.freshVar(SBV64)
+		w.inputs = append(w.inputs, Input{Kind: "aux", Vars: []*Term{v}})
+		w.addPC(ip.TC.And(ip.TC.SLe(i64(0), v), ip.TC.SLt(v, n)))
+		return v
+	})
+	reg("math/rand.Float64", func(ip *Interp, a []Value) Value {
+		w := ip.W
+		v := w.freshVar(SBV64)
+		w.inputs = append(w.inputs, Input{Kind: "aux", Vars: []*Term{v}})
+		f := ip.TC.FFromBits(v)
+		w.addPC(ip.TC.And(ip.TC.FLe(ConstF64(0), f), ip.TC.FLt(f, ConstF64(1))))
+		return f
+	})
 	reg("runtime.KeepAlive", func(ip *Interp, a []Value) Value { return nil })
 
 	reg("internal/reflectlite.TypeOf", func(ip *Interp, a []Value) Value {
